@@ -98,7 +98,30 @@ def one_case(ctx: Ctx, stream: str, i: int, ctx_len: int, force_pattern=None) ->
         ops.append(o)
         cur = o.out_structure()
     chain = list(reversed(ops))
-    e = CompositionOperator(chain) if len(chain) > 1 else chain[0]
+    # how the user writes the chain: the operand list handed to CompositionOperator, or `@` folded from the left, from
+    # the right, or as two halves — `@` flattens and applies its construction-time shortcuts, whatever the grouping
+    build = ['list', 'list', 'left-fold', 'right-fold', 'halves'][i % 5] if len(chain) > 1 else 'single'
+    ctx.count('build:' + build)
+    if build in ('list', 'single'):
+        e = CompositionOperator(chain) if len(chain) > 1 else chain[0]
+    else:
+        def fold_left(ops_):
+            acc = ops_[0]
+            for o in ops_[1:]:
+                acc = acc @ o
+            return acc
+
+        def fold_right(ops_):
+            acc = ops_[-1]
+            for o in reversed(ops_[:-1]):
+                acc = o @ acc
+            return acc
+        stb, e = safe(lambda: fold_left(chain) if build == 'left-fold' else fold_right(chain) if build == 'right-fold'
+                      else fold_left(chain[:len(chain) // 2]) @ fold_right(chain[len(chain) // 2:]))
+        if stb != 'ok':
+            ctx.fail(stream, i, f'matmul-raises:{stb}', f'building a well-typed chain with @ ({build}) raised {stb}: {str(e)[:150]}',
+                     {'planted': planted})
+            return
     enc = Encoder()
     esx = enc.op(e)
     enc.freeze()
